@@ -1143,7 +1143,7 @@ func c15TextReplay(raw json.RawMessage) bool {
 }
 
 func c15Replay(c *core.Ctx, payload json.RawMessage) {
-	if c15DefaultsReplay(c, payload) || c15ConcurrentReplay(c, payload) || c15ContextReplay(c, payload) || c15ExprStmtReplay(c, payload) || c15RecCtxReplay(c, payload) || c15UsingReplay(c, payload) {
+	if c15DefaultsReplay(c, payload) || c15ConcurrentReplay(c, payload) || c15ContextReplay(c, payload) || c15ExprStmtReplay(c, payload) || c15RecCtxReplay(c, payload) || c15UsingReplay(c, payload) || c15CurStatusReplay(c, payload) {
 		return
 	}
 	if c15TextReplay(payload) {
